@@ -8,6 +8,7 @@ import (
 	"os"
 	"path/filepath"
 	"runtime"
+	"runtime/debug"
 	"sort"
 	"strings"
 	"sync"
@@ -146,6 +147,24 @@ func RunSuite(name string, seed uint64, tier, repo, dir string) error {
 		wg.Add(1)
 		go func(s *Shard) {
 			defer wg.Done()
+			// safety net: a panic that escapes the library through a path no monitor wraps ends this shard, and is
+			// itself a finding (nothing in the library may panic on any input of these suites)
+			defer func() {
+				if p := recover(); p != nil {
+					last := ""
+					if len(s.cases) > 0 {
+						last = s.cases[len(s.cases)-1]
+					}
+					stack := string(debug.Stack())
+					if k := strings.Index(stack, "panic("); k >= 0 {
+						stack = stack[k:]
+					}
+					if len(stack) > 1500 {
+						stack = stack[:1500]
+					}
+					s.Fail(name+".no-panic", last, fmt.Sprintf("panic: %v (the case given is the last one emitted before it) :: %s", p, strings.ReplaceAll(stack, "\n", " | ")))
+				}
+			}()
 			fn(s, total/nShards)
 		}(shards[i])
 	}
